@@ -287,6 +287,25 @@ func (s *storeView) UpdateOffsets(ctx context.Context, topic string, partition i
 	return ierr
 }
 
+func (s *storeView) CreateTopic(ctx context.Context, spec metadata.TopicSpec) (*protocol.MetadataTopic, error) {
+	if s.inst.isDead() {
+		return nil, errDead
+	}
+	var topic *protocol.MetadataTopic
+	var ierr error
+	apply := func() { topic, ierr = s.hub.inner.CreateTopic(ctx, spec) }
+	out := outOK
+	if s.sc != nil && s.sc.gates("create_topic") {
+		out = s.sc.enter(ctx, s.inst, "create_topic", spec.Name, apply)
+	} else {
+		apply()
+	}
+	if e := out.err(); e != nil {
+		return nil, e
+	}
+	return topic, ierr
+}
+
 // ---------------------------------------------------------------- scheduler
 
 type outcome int
@@ -555,6 +574,7 @@ type plogCfg struct {
 	DefaultHealth  bool
 	MaxSteps       int
 	S3Concurrency  int
+	AutoCreate     bool // topics are NOT pre-created: the first requests auto-create them (CreateTopic is the boundary op "create_topic")
 }
 
 type scenario struct {
@@ -591,7 +611,14 @@ func (s *scenario) newInstance() {
 	st := &storeView{Store: s.hub.inner, hub: s.hub, inst: inst, sc: s.sc}
 	h := newHandler(st, view, protocol.MetadataBroker{NodeID: 1, Host: "127.0.0.1", Port: 9092}, discardLogger())
 	h.flushOnAck = s.cfg.FlushOnAck
-	h.autoCreateTopics = false
+	h.autoCreateTopics = s.cfg.AutoCreate
+	if s.cfg.AutoCreate {
+		for _, n := range s.cfg.Topics {
+			if n > h.autoCreatePartitions {
+				h.autoCreatePartitions = n
+			}
+		}
+	}
 	h.logConfig.Buffer = storage.WriteBufferConfig{MaxBytes: s.cfg.BufferMaxBytes, MaxMessages: s.cfg.BufferMaxMsgs, MaxBatches: s.cfg.BufferMaxBatch}
 	h.logConfig.Segment.IndexIntervalMessages = s.cfg.IndexInterval
 	h.logConfig.ReadAheadSegments = s.cfg.ReadAhead
@@ -620,6 +647,9 @@ func newScenario(t *testing.T, cfg plogCfg) *scenario {
 	}
 	sort.Strings(names)
 	for _, n := range names {
+		if cfg.AutoCreate {
+			break
+		}
 		if _, err := s.hub.inner.CreateTopic(context.Background(), metadata.TopicSpec{Name: n, NumPartitions: cfg.Topics[n], ReplicationFactor: 1}); err != nil {
 			t.Fatalf("create topic %q: %v", n, err)
 		}
